@@ -63,6 +63,7 @@ def rachford_rice_2N(w, cfg):
     K1 = w.real('K1', lo=0., lo_strict=True)
     K2 = w.real('K2', lo=0., lo_strict=True)
     w.assume(w.And(w.ne(K1, 1.), w.ne(K2, 1.), w.ne(K1, K2)))
+    _skip_if_rounding_dominates(w, [z1, z2, K1, K2, K1 - 1., K2 - 1., K1 - K2])
     zs = _arr(w, [z1, z2]); Ks = _arr(w, [K1, K2])
     V = binary_mod.compute_phase_fraction_2N(zs, Ks)
     d1 = 1. + V * (K1 - 1.)
@@ -108,6 +109,14 @@ def _zero_sum(w, terms):
     return abs(total) <= 1e-7 * sum(abs(t) for t in terms) + 1e-9
 
 
+def _skip_if_rounding_dominates(w, leaves, lo=1e-8, hi=1e8):
+    """Native runs only (cross-check / replay of a solver model with floats): path models of these purely algebraic groups may
+    put leaves at 1e-17 or 1e-33, where float rounding, not the code, decides equalities; such a run is skipped (reported by
+    the engine as `cross_checks_skipped_rounding`).  Nothing is assumed in the symbolic run."""
+    if not w.symbolic:
+        w.assume(all(v == 0. or lo <= abs(v) <= hi for v in leaves))
+
+
 def _iff(w, a, b):
     return w.And(w.Implies(a, b), w.Implies(b, a))
 
@@ -136,6 +145,7 @@ def rr_objective(w, cfg):
     za = w.real('za', lo=0., lo_strict=True) if cfg['za'] else 0.
     zb = w.real('zb', lo=0., lo_strict=True) if cfg['zb'] else 0.
     phi = w.real('phi', lo=0., hi=1., lo_strict=True, hi_strict=True)
+    _skip_if_rounding_dominates(w, zs + Ks + [za, zb, phi, 1. - phi])
     z = _arr(w, zs); K = _arr(w, Ks)
     K_minus_1 = K - 1.
     a1 = -z * K_minus_1
@@ -680,6 +690,7 @@ def K_posing(w, cfg):
     xin = [w.real(f'x{i}', lo=0., lo_strict=True) for i in range(n)]
     Vin = w.real('V_prev')
     Kin = [w.real(f'K{i}', lo=0., lo_strict=True) for i in range(n)]
+    _skip_if_rounding_dominates(w, [T, P, za, zb] + zs + pPoP + xin + Kin, lo=1e-6, hi=1e6)
     logK = [_log(k) for k in Kin]
     xVlogK = _arr(w, xin + [Vin] + logK)
     x0 = list(xVlogK)
@@ -718,6 +729,7 @@ def K_posing(w, cfg):
     gam = f_gamma(_arr(w, xt), T)
     ph = f_phi(_arr(w, yt), T, P)
     Kp = [pPoP[i] * gam[i] / ph[i] for i in range(n)]
+    _skip_if_rounding_dominates(w, list(gam) + list(ph) + Kp + [k - 1. for k in Kp], lo=1e-6, hi=1e6)
     # the floor at 1e-16 is a case split of the code on Kp < 1e-16; the contract follows the same split
     Kout = [(1e-16 if Kp[i] < 1e-16 else Kp[i]) for i in range(n)]
     Vout = out[n]
@@ -1180,7 +1192,7 @@ def totals_of(s):
     return s.imol['l'] + s.imol['g'] if False else (np.asarray(s.imol['l'].to_array()) + np.asarray(s.imol['g'].to_array()))
 
 
-T_GRID_QUICK = (300., 350., 400., 440.)
+T_GRID_QUICK = (300., 350., 400.)
 T_GRID_THOROUGH = (285., 300., 325., 350., 375., 400., 425., 445.)
 THETAS = (0.05, 0.3, 0.6, 0.95)
 
